@@ -291,7 +291,7 @@ class ModeDReader(MeterReaderBase[DataReadout]):
 
             if self.is_in_hunt_mode:
                 if line[0] == START_CHARACTER_HEX:
-                    line_str = line.decode("ascii")
+                    line_str = line.decode("ascii", errors="replace")
                     if Ident.is_ident_line(line_str):
                         _LOGGER.debug("Ident line found: %s", line_str)
                         self._is_int_hunt_mode = False
